@@ -42,6 +42,7 @@ func init() {
 			{"FRM-METHOD", 3, ruleFrmMethod},
 			{"FRM-REDEFINE", 3, ruleFrmRedefine},
 			{"FRM-PARAMSLOT", 1, ruleFrmParamSlot},
+			{"LAY-EVALORDER", 1, ruleLayEvalOrder},
 			{"REP-TYPEDSTORE", 9, ruleRepTypedStore},
 			{"JOINSPLIT", 100, ruleJoinSplit},
 		},
